@@ -7,23 +7,28 @@ harness/src/bin/robust.rs = the generic replayer + crash-site recording):
               fresh engine, arity from the registered metadata / the closure object, aliases merged by
               procedure identity) -> IOEnv.ROBUST_TABLE; Robust.tla (MODE "matrix") enumerates
               builtin x Kind^arity; every case = [set-up unit, the call (class noncrash), Probe(G)].
-              Round 1 ("canaries": arity <= 1, kind tiers 1-2, every builtin) also fixes the crash
-              BUDGET: a builtin with >= CAP_AT canary crashes/hangs that are all attributed to known
-              findings is capped to NCAP sampled tuples in round 2 (a crash costs a process restart).
+              Round 1 ("canaries": the same machine with the six-kind core for 1 and 2 arguments and a
+              few sampled triples, every builtin) also fixes the crash BUDGET: a builtin with >= CAP_AT
+              canary crashes/hangs that are ALL attributed to known findings is capped to NCAP sampled
+              tuples in round 2 (a crash costs a process restart; the capped builtins are listed in the
+              evidence notes).  A crash that is not a known finding is a VIOLATION in any round.
  (2) stages   MODE "stages": error stage x context, expected emits / class / post-state from RunCtx;
               each case = set-up, control (no failure), the failing unit, After(G), control again;
-              "inter": -simulate histories of failing units, assignments, (failed) redefinitions.
-              "repeat": every run-time stage x context unit repeated REPEAT times on one engine, the
-              depth probe `(#%verif-depth)` = (0 0) after each (no residue on the stacks).
+              "reenter": a continuation of an earlier unit invoked by a later one (class noncrash);
+              "inter": -simulate histories of failing units, assignments, (failed) redefinitions;
+              "repeat": a run-time stage x context unit repeated 100 / 200 times on one engine, the depth
+              probe `(#%verif-depth)` = (0 0) after each (no residue on the thread's two stacks).
  (3) deep     MODE "deep": deep program text and deep non-tail recursion, class noncrash + value.
  Arbitrary text over a small alphabet: Datum.tla Strings / checks/c12.py (not duplicated here).
 
 JIT: everything runs with the JIT on (default); a seeded sample of the matrix and all of (2), (3) run a
 second time with STEEL_JIT=false.
 
-Verdict post-processing (documented in Robust.tla, deviation D-HUGE): a timeout or an allocation abort
-(no panic recorded) of a call that has an argument of magnitude "h" is counted as `resource`, not as a
-violation.  A panic is a violation at any magnitude.
+Verdict post-processing: (a) the panic site recorded by the replayer is joined to the verdict of a process
+that died; a death without a recorded panic is re-run alone with stderr captured (native stack overflow /
+failed allocation); known findings are matched on these sites.  (b) Robust.tla deviation D-HUGE: a timeout
+or a failed allocation of a call that has an argument of magnitude "h", or of a program of depth >= 10^5,
+is counted as `resource`, not as a violation.  A panic or a stack overflow is a violation at any size.
 """
 import collections
 import glob
@@ -312,7 +317,7 @@ def account(r, cases, verdicts, what):
     return vs
 
 
-def selftest(work, table_path, proto_case):
+def selftest(work, table_path):
     """Non-vacuity: (a) the spec as a mutant oracle (MUTANT = TRUE shifts the probe's expected value):
     every stage case must be reported; (b) a crash must be attributed with its site; (c) a hang is a
     failing verdict."""
@@ -349,14 +354,16 @@ def part_stages(r, work, table_path, quick, rnd, seed):
     r.add_tlc(res)
     proto = next(c for c in res["cases"] if c["k"] == "proto")
     r.notes.append("deny list (Robust.tla Deny): " + "; ".join(f"{d['name']} ({d['why']})" for d in proto["deny"]))
-    selftest(work, table_path, proto)
+    selftest(work, table_path)
     srecs = [c for c in res["cases"] if c["k"] == "stage"]
     scases = [stage_case(c, proto) for c in srecs] + [reenter_case(c, proto) for c in res["cases"] if c["k"] == "reenter"]
     for env, nm in ((None, "c07s"), (nojit, "c07sn")):
         cs = [dict(c, id=c["id"] + ("-nojit" if env else ""), tag=c["tag"] + ("|nojit" if env else "")) for c in scases]
         account(r, cs, replay_robust(cs, work, nm, env_extra=env, timeout_ms=10000), "stages")
     # residue: every run-time failing unit repeated on one engine, depth probe after each
-    rep = sorted((c for c in srecs if c["st"] == "run" and c["stage"] != "rt-assert"), key=lambda c: (c["ctx"], c["stage"]))
+    # (not the two stages that are known to panic: a panic ends the case at its first repetition)
+    rep = sorted((c for c in srecs if c["st"] == "run" and c["stage"] not in ("rt-assert", "rt-stream-tail")),
+                 key=lambda c: (c["ctx"], c["stage"]))
     if quick:
         rep = rnd.sample(rep, 24)
     rcases = [repeat_case(c, proto, 100 if quick else 200) for c in rep]
